@@ -240,6 +240,17 @@ def check_c20(run, an):
                                                f'started on {started} connection(s) only; '
                                                f'blocked: {run.sim.blocked_final[:5]}',
                    key='board-not-started')
+    # "... closed without disturbing the players already seated": after requests were turned
+    # away, the session of the four seated (conforming) players must go on as if they had never
+    # come.  (Without any rejection a session that breaks down is C09's business alone.)
+    if complete and nrej and an.offending is None and \
+            (run.server_exc is not None or run.outcome != 'finished'):
+        why = f'{run.server_exc[0]}: {run.server_exc[1][:160]}' if run.server_exc else run.outcome
+        an.add('C20', 'seated-disturbed',
+               f'{nrej} request(s) were turned away and four conforming players were seated, but '
+               f'the session that followed broke down ({why}); boards completed: '
+               f'{an.complete_boards}; blocked: {run.sim.blocked_final[:4]}',
+               key='seated-disturbed:' + (run.server_exc[0] if run.server_exc else run.outcome))
     # exactly one live connection per seat: no second SEATED for a seat
     seen = {}
     for v in views.values():
